@@ -607,9 +607,9 @@ wait:
 		case <-x.quiesce:
 			break wait
 		case <-tick.C:
-			if time.Now().UnixNano()-atomic.LoadInt64(&x.lastEvent) > int64(20*time.Second) {
+			if time.Now().UnixNano()-atomic.LoadInt64(&x.lastEvent) > int64(120*time.Second) {
 				tick.Stop()
-				panic(infraError{"vrt watchdog: no scheduling event for 20s (uninstrumented blocking operation?)\n" + allStacks()})
+				panic(infraError{"vrt watchdog: no scheduling event for 120s (uninstrumented blocking operation?)\n" + allStacks()})
 			}
 		}
 	}
@@ -621,7 +621,7 @@ wait:
 			t.wake <- struct{}{}
 			select {
 			case <-x.tdone:
-			case <-time.After(20 * time.Second):
+			case <-time.After(120 * time.Second):
 				panic(infraError{"vrt teardown: thread did not exit: " + t.Name + "\n" + allStacks()})
 			}
 		}
